@@ -286,7 +286,9 @@ func cmdCheck(args []string) int {
 	engineErr := false
 	for _, j := range jobs {
 		fn, c := j.fn, j.ctr
-		opts := VerifyOpts{Safety: *prop == "C10" || (c != nil && contractWantsSafety(c, *prop)), SafetyTags: []string{*prop}, Liveness: *prop == "C20"}
+		// C10: run-time safety of everything in the packages that handle client input; a function outside
+		// them (start-up code in package main) only answers for its own C10 clauses unless it says nopanic[C10]
+		opts := VerifyOpts{Safety: (*prop == "C10" && inSweepPkgs(fn)) || (c != nil && contractWantsSafety(c, *prop)), SafetyTags: []string{*prop}, Liveness: *prop == "C20"}
 		fr := verifyFunction(prog, fn, c, opts)
 		run.results = append(run.results, fr)
 		sel, sk := selectObligations(fr, *prop)
@@ -302,10 +304,10 @@ func cmdCheck(args []string) int {
 			}
 		}
 	}
-	timeout := 30 // per obligation; the slowest claimed obligation needs about 8 s, everything else under 5 s
+	timeout := 60 // per obligation: the slowest claimed obligation needs about 8 s (30 s were exceeded once with six checks and a failing proof side by side), everything else under 5 s
 	confirm := false
 	if *tier == "thorough" {
-		timeout = 60
+		timeout = 120
 		confirm = true
 	}
 	run.solveSec, run.wins = solveAll(run.obls, timeout, confirm)
@@ -910,6 +912,18 @@ var sweepExclusions = map[string]string{
 	"protocol.Disconnect":                          "administrative API, not reachable from client input",
 	"protocol.wrapSyscallError":                    "only called from setSendReceiveBuffers",
 	"config.ToCamel":                               "startup configuration only",
+}
+
+func inSweepPkgs(fn *ssa.Function) bool {
+	if fn.Pkg == nil {
+		return false
+	}
+	for _, sp := range sweepPkgs {
+		if fn.Pkg.Pkg.Path() == repoModule+sp {
+			return true
+		}
+	}
+	return false
 }
 
 func sweepExcluded(prog *Program, fn *ssa.Function) bool {
